@@ -12,6 +12,7 @@ import (
 	"runtime"
 	"runtime/debug"
 	"strconv"
+	"strings"
 	"sync"
 	"syscall"
 	"time"
@@ -98,7 +99,11 @@ func isFlagSet(name string) bool {
 
 func runWorker(chk *checks.Check, tier string, seed int64, shard, nshards, secs int, out string, kf []core.KnownFinding, replays string) (code int) {
 	// hard memory ceiling: a runaway allocation kills this worker, not the machine
-	lim := syscall.Rlimit{Cur: 12 << 30, Max: 12 << 30}
+	// (virtual address space: a decoder may legitimately reserve the declared
+	// remaining length, up to 256 MiB, and a defective one far more without
+	// ever touching it; resident memory is what the soft limit below and the
+	// step budget keep small)
+	lim := syscall.Rlimit{Cur: 96 << 30, Max: 96 << 30}
 	syscall.Setrlimit(syscall.RLIMIT_AS, &lim)
 	debug.SetMemoryLimit(6 << 30)
 	if chk.SingleThread {
@@ -181,7 +186,12 @@ func runParent(chk *checks.Check, tier string, seed int64, procs, secs int, evid
 			b, rerr := os.ReadFile(out)
 			if rerr != nil {
 				tail, _ := os.ReadFile(errFile.Name())
-				if len(tail) > 3000 {
+				if i := strings.Index(string(tail), "fatal error:"); i >= 0 {
+					tail = tail[i:]
+					if len(tail) > 3000 {
+						tail = tail[:3000]
+					}
+				} else if len(tail) > 3000 {
 					tail = tail[len(tail)-3000:]
 				}
 				errs[i] = fmt.Sprintf("worker %d produced no result (%v): %s", i, err, tail)
@@ -199,8 +209,27 @@ func runParent(chk *checks.Check, tier string, seed int64, procs, secs int, evid
 	harnessErr := ""
 	for i, r := range results {
 		if r == nil {
-			harnessErr = errs[i]
 			total.Exhaustive = false
+			// A worker killed by a fatal error of the Go runtime (out of
+			// memory, stack overflow, concurrent map access) died inside
+			// the code under test: that is a verdict, not a harness fault.
+			if idx := strings.Index(errs[i], "fatal error:"); idx >= 0 {
+				msg := errs[i][idx:]
+				if len(msg) > 1500 {
+					msg = msg[:1500]
+				}
+				first := msg
+				if nl := strings.Index(first, "\n"); nl > 0 {
+					first = first[:nl]
+				}
+				body, _ := json.MarshalIndent(map[string]any{"case": core.Case{Property: chk.ID, Harness: "worker-crash", Note: fmt.Sprintf("shard %d of %d, tier %s: re-run the check to reproduce", i, procs, tier)}, "class": "worker-crashed", "detail": msg}, "", " ")
+				os.MkdirAll(replays, 0o755)
+				path := fmt.Sprintf("%s/%s-crash-shard%d.json", replays, chk.ID, i)
+				os.WriteFile(path, body, 0o644)
+				total.Violations["worker-crashed:"+first] = &core.ViolationOut{Class: "worker-crashed", Detail: "a worker process exploring this property died with a Go runtime " + first + " (the library under test brought the process down): " + msg, Replay: path, Count: 1}
+				continue
+			}
+			harnessErr = errs[i]
 			continue
 		}
 		total.Merge(r)
